@@ -308,7 +308,8 @@ def replay_file(path, verbose=True):
         if same_class(mod, vj, doc["expect"]):
             hit = vj
             break
-    info = {"digest": res.digest, "digest_expected": doc.get("digest"), "violations": [v.to_json() for v in res.violations]}
+    info = {"digest": res.digest, "digest_expected": doc.get("digest"), "violations": [v.to_json() for v in res.violations],
+            "digest_match": (not doc.get("digest")) or res.digest == doc.get("digest")}
     if verbose:
         if hit:
             print("replay: reproduced clause=%s sig=%s" % (hit["clause"], json.dumps(hit["sig"], sort_keys=True)))
